@@ -1,16 +1,16 @@
-SPECIFICATION Spec
+SPECIFICATION SimSpec
 CONSTANTS
   Keys = {1, 2}
-  Clients = {1, 2}
-  MaxSize = 2
-  Costs = {1, 2}
+  Clients = {1, 2, 3}
+  MaxSize = 1
+  Costs = {1}
   TTLs = {0}
   QCap = 2
   BatchMax = 2
-  MaxEnt = 4
+  MaxEnt = 6
   MaxTime = 1
-  OpsPerClient = 2
-  Allowed <- AllowAcct
+  OpsPerClient = 3
+  Allowed <- AllowWait
   WithTicker = FALSE
   Thresh = 30
   AdvSteps = {1}
@@ -20,5 +20,9 @@ CONSTANTS
   FixD6 = TRUE
   FixD7 = TRUE
   FixD16 = TRUE
-VIEW view
-INVARIANTS TypeOK AcctInv NotifInv NotifComplete NoBadC06 InFlightBound
+  Depth = 60
+  Gates <- GatesAll
+  Shift = 30
+  Start = 3
+  MaxTicks = 0
+CONSTRAINT Export
